@@ -9,6 +9,8 @@ Tie gate   : harness/c12_reduce.c (real encoder/decoder, ASan+UBSan, with and wi
                * decoding the real encoder's output with the real decoder must give the input back,
                * on arbitrary streams both decoders must agree on (ok, bytes),
                * no sanitizer report / assert / crash on any stream.
+             harness/c12_mirread.c: the same layer under mir.c's reader (MIR_read_with_func): modules whose
+             uncompressed stream is exactly k x 262144 (+-1) bytes, damaged trailer/body must be rejected.
 Verdicts   : crash, failed round trip, an accepted corrupted stream with different output, or a
              debug/NDEBUG behaviour difference on the real code = VIOLATION with replay;
              real code consistent but different from the model = broken tie (no-failing-input-found).
@@ -363,6 +365,55 @@ class Tie:
         self.decode_cases(dl)
 
 
+def mirread_cases(tie, targets, only_case=None):
+    """the layer as mir.c uses it: MIR_read_with_func over damaged copies of a written module whose
+    uncompressed stream is exactly <target> bytes (harness/c12_mirread.c)"""
+    exe = tie.exes.get("mirread")
+    if exe is None:
+        return
+    try:
+        p = subprocess.run([exe] + [str(t) for t in targets], stdout=subprocess.PIPE, stderr=subprocess.PIPE, text=True, timeout=600)
+        out, rc, err = p.stdout, p.returncode, p.stderr
+    except subprocess.TimeoutExpired:
+        out, rc, err = "", -999, "timeout"
+    seen = set()
+    for line in out.split("\n"):
+        w = line.split()
+        if not w:
+            continue
+        if w[0] == "?":
+            tie.ck.broken_ties.append({"kind": "correspondence", "name": "c12_mirread: " + line})
+            continue
+        if w[0] == "S":
+            seen.add(int(w[1]))
+            tie.bump("sizes", tie.size_bucket(int(w[2])))
+            continue
+        if w[0] != "C":
+            continue
+        target, name = int(w[1]), w[2]
+        if only_case and name != only_case:
+            continue
+        f = dict(x.split("=") for x in w[3:])
+        tie.n_eval += 1
+        tie.bump("kinds", "mirread:" + ("unmodified" if name == "unmodified" else name.rstrip("0123456789-").rstrip("-") if not name.startswith("body") else "body-byte-flipped"))
+        c = {"op": "R", "arg": f"{target}:{name}", "kind": "mirread"}
+        if name == "unmodified":
+            if f != {"dec": "1", "read": "1", "same": "1"}:
+                tie.viol(c, "a module written by MIR_write_with_func is not read back unchanged by MIR_read_with_func "
+                         f"(uncompressed size {target})", "C12:mirread-roundtrip", line, "")
+        elif f["read"] == "1" and f["dec"] == "0":
+            tie.viol(c, f"MIR_read_with_func ACCEPTS a damaged binary ({name}, uncompressed size {target} = a multiple of the 262144-byte "
+                     "buffer) although reduce_decode reports failure on the same bytes: the decoder's failure after the last data "
+                     "byte (check hash wrong/missing) is not looked at" + ("; the module read differs from the one written" if f["same"] == "0" else ""),
+                     "C12:mirread-ignores-decode-finish", line, "reduce_decode ok=0")
+            tie.nontrivial.add(("R", c["arg"]))
+    if rc != 0:
+        tie.viol({"op": "R", "arg": ",".join(map(str, targets)), "kind": "mirread"}, "c12_mirread harness crashed", "C12:mirread-crash", err[-1500:], "")
+    for t in targets:
+        if t not in seen and rc == 0:
+            tie.ck.broken_ties.append({"kind": "correspondence", "name": f"c12_mirread: no answer for target {t}"})
+
+
 # ---------------------------------------------------------------------------------- generators
 def corruptions(tie, rng, data, enc, subst_vals, all_trunc=True):
     """every truncation, 1-byte extensions, every single-byte substitution (several values)"""
@@ -579,6 +630,7 @@ def main():
             ck.leanchecker(["MirVerif.Props.C12"])
     jobs = [("c12_reduce_asan", ["harness/c12_reduce.c"], FLAGS),
             ("c12_reduce_ndebug", ["harness/c12_reduce.c"], FLAGS + ["-DNDEBUG"])]
+    jobs.append(("c12_mirread", ["harness/c12_mirread.c"], ["-O1", "-g", "-w"]))
     have_clang = vf.sh(["clang", "--version"])[0] == 0 if shutil.which("clang") else False
     if have_clang:
         jobs.append(("c12_reduce_msan", ["harness/c12_reduce.c"], ["-O1", "-g", "-fsanitize=memory", "-fno-omit-frame-pointer"], None, "clang"))
@@ -587,6 +639,9 @@ def main():
         ck.assumptions.append("MSan flavour could not be built; uninitialised-read detection not active in this run")
         exes.pop("c12_reduce_msan", None)
     msan = exes.pop("c12_reduce_msan", None)
+    mirread = exes.pop("c12_mirread", None)
+    if mirread is None:
+        ck.broken_ties.append({"kind": "harness-compile", "name": "c12_mirread", "log": getattr(ck, "last_cc_log", "")[-1500:]})
     for k, v in exes.items():
         if v is None:
             ck.broken_ties.append({"kind": "harness-compile", "name": k, "log": getattr(ck, "last_cc_log", "")[-1500:]})
@@ -594,7 +649,7 @@ def main():
         if not os.path.exists(DRV):
             ck.broken_ties.append({"kind": "driver-missing", "name": "mirdrv_c12"})
         ck.finish()
-    tie = Tie(ck, {"asan": exes["c12_reduce_asan"], "ndebug": exes["c12_reduce_ndebug"], "msan": msan})
+    tie = Tie(ck, {"asan": exes["c12_reduce_asan"], "ndebug": exes["c12_reduce_ndebug"], "msan": msan, "mirread": mirread})
     if msan is None:
         ck.assumptions.append("clang/MSan not available: reads of never-written decoder memory are checked by the model only")
     rng = ck.rng
@@ -616,6 +671,9 @@ def main():
             tie.settle_mismatches(cs)
             for a, e in encs.items():
                 tie.decode_cases([{"op": "D", "arg": hx(e), "kind": "replay-roundtrip", "orig": a, "enc": hx(e)}])
+        elif c["op"] == "R":
+            t, _, nm = arg.partition(":")
+            mirread_cases(tie, [int(x) for x in t.split(",")], nm or None)
         elif c["op"] in ("G", "X"):
             tie.big_cases([arg])
         else:
@@ -641,6 +699,8 @@ def main():
             if not j.get("known_signature") and ck.n_viol == before and isinstance(r, str) and (r.split(" ")[1] == "1") != bool(j["expect_ok"]):
                 tie.viol(c, "corpus regression: stream %s must %s" % (j["name"], "be accepted" if j["expect_ok"] else "be rejected"),
                          "C12:corpus-" + j["name"], r[:300], "")
+        elif j["kind"] == "mirread":
+            mirread_cases(tie, [j["target"]], j.get("case"))
         elif j["kind"] == "encode":
             cs = [{"op": "E", "arg": j["hex"], "kind": "corpus:" + j["name"]}]
             encs = tie.encode_cases(cs)
@@ -746,6 +806,14 @@ def main():
                                      f"mix:{n}:{rng.below(1 << 30)}:{rng.choice([2, 4, 256])}:{rng.choice([1, 4, 5, 33, 300, 3000])}"]))
     tie.big_cases(specs)
     ck.stage("large", n=len(specs), t_s=round(time.time() - t0, 1))
+
+    # ---- the layer under mir.c's reader: block-boundary stream lengths with damaged trailer / body
+    t0 = time.time()
+    targets = [B, 2 * B, B - 1, B + 1, 4000]
+    if thorough:
+        targets += [3 * B, B - 2047, B + 2047, 2 * B - 1, 2 * B + 1, 20000 + rng.below(200000)]
+    mirread_cases(tie, targets)
+    ck.stage("mirread", targets=targets, t_s=round(time.time() - t0, 1))
 
     # ---- residual (b): altered streams that are a different valid encoding of the same data
     tie.dist["alt_valid_encoding_accepted"] = tie.alt_valid
